@@ -256,6 +256,9 @@ def _scenarios(prop, tier, seed=0):
         # pool thread is inside the operation
         L.append(S('c05_p0_poll_takeover_drop', [T('A', ('d_new', 'd'), ('d_future_desync', 'd', {'fut': ('gate', 0), 'as': 'f'}), ('poll', 'f'), ('set_max', 1), ('wait_gate', 5), ('drop_fut', 'f'), ('d_drop', 'd')),
                                                T('W', ('open_gate', 0), ('open_gate', 5))], pool_max=0, pool_slots=1, queues=0, seq='A! W P0 A P0 A P0', B=30, oracles=MEM))
+        # the operation is suspended on the pool thread (set-up prefix), then the drop of the last owner races its wake-up for three rounds
+        L.append(S('c05_p1_wfw_drop_su', [T('A', ('d_new', 'd'), ('d_future_desync', 'd', {'fut': ('gate', 0), 'as': 'f'}), ('detach', 'f'), ('wait_gate', 5), ('d_drop', 'd')),
+                                          T('W', ('open_gate', 5), ('open_gate', 0))], pool_max=1, queues=0, setup='A! P0!', R=3, B=18, oracles=MEM))
         if not q:
             L.append(S('c05_p1_two_desync_drop', [T('A', ('d_new', 'd'), ('d_desync', 'd'), ('d_desync', 'd'), ('d_drop', 'd'))], pool_max=1, queues=0, R=3, B=18, oracles=MEM))
             L.append(S('c05_p0_desync_drop', [T('A', ('d_new', 'd'), ('d_desync', 'd'), ('d_drop', 'd'))], pool_max=0, queues=0, R=2, B=24, oracles=MEM))
@@ -399,7 +402,10 @@ def matrix(prop, oracles_for, pools=(0, 1), want=None, R=3, B=14, seed=0):
                 # using the queue (C07: "pool size 0 with a single context"; C08: "pool size 0 for the await-to-completion cases only"):
                 # with a second caller the liveness oracles would demand more than the properties state, the safety oracles stay
                 if P == 0 and heavy: orc = tuple(o for o in orc if o not in ('deadlock', 'quiescent_complete', 'fut_results'))
-                L.append(S('%s_mx_p%d_%s_%s' % (prop.lower(), P, ka, kb), ths, pool_max=P, R=R, B=B + 2 * heavy, oracles=orc))
+                # pairs with a future_sync at pool maximum 1 did not finish within an hour at R = 3 (c09_mx_p1_try_fsync) and have no completing
+                # schedule at R = 2: left out here; future_sync against every queue state is covered by the state matrix instead
+                if P == 1 and 'fsync' in (ka, kb): continue
+                L.append(S('%s_mx_p%d_%s_%s' % (prop.lower(), P, ka, kb), ths, pool_max=P, R=R, B=B + 2 * heavy, oracles=orc, cap=(4 if 'fsync' in (ka, kb) else 3)))
     return L
 
 # Thorough tier: the "state matrix".  A deterministic set-up prefix drives one object into each of the queue states the properties name
